@@ -166,6 +166,46 @@ def c12(run, tier):
         run.trace_validate(["-fam", "values", "-n", str(Q(tier, 2500, 20000)), "-sub", str(100 + i)], "values%d" % i)
 
 
+def c13(run, tier):
+    import os
+    # non-vacuity: the model of the repaired defect (union in place) must violate the frame property
+    cfg = run.cfg("MC_Xsel.cfg", {"LegacyUnionInPlace": "TRUE", "EmitOn": "FALSE", "MaxSteps": 3}, "legacy.cfg")
+    ok, out = run.tlc_mc("Xsel", cfg, "legacy-must-fail", expect_violation=True, timeout=300)
+    if ok:
+        raise_spec(run, "Xsel with LegacyUnionInPlace did not violate Frame (vacuous model)", out)
+    # spec -> code: every history of MaxSteps calls (Frame / HeldStable / SerialValue checked in the same run)
+    cfg = run.cfg("MC_Xsel.cfg", {"MaxSteps": Q(tier, 3, 4)}, "gen.cfg")
+    trace = os.path.join(run.work, "hist.ndjson")
+    run.tlc_gen_replay("Xsel", cfg, "histories", harness_args=["-out", trace], timeout=Q(tier, 400, 3000))
+    run.trace_validate([], "histories", frame_aspect=True, order_aspect=True, trace_file=trace, timeout=Q(tier, 600, 3000))
+    # code -> spec: long random sessions over shared cursors, compiled expressions and result slices
+    for i in range(Q(tier, 1, 4)):
+        run.trace_validate(["-n", str(Q(tier, 2500, 15000)), "-sub", str(i)], "sessions%d" % i, frame_aspect=True, order_aspect=True, record_cmd="session-record")
+
+
+def session_replay(run, path):
+    """replay files of trace-judged properties: re-execute on the real code, let the trace specification judge again"""
+    import json, os, subprocess
+    rc = json.load(open(path))
+    run.build_harness()
+    if rc.get("fam") != "session":
+        p = subprocess.run([run.harness, "replay-one", path], env=run.env)
+        if p.returncode == 1:
+            print("VIOLATION property=%s replay=%s" % (run.pid, path))
+        return p.returncode
+    t = os.path.join(run.work, "replay.ndjson")
+    p = run.harness_cmd(["session-replay", "-out", t, path], "session-replay")
+    if p.returncode != 0:
+        print("cannot re-execute", path)
+        return 2
+    bad = run.trace_validate([], "replay", frame_aspect=True, order_aspect=True, trace_file=t)
+    if bad:
+        print("VIOLATION property=%s replay=%s" % (run.pid, path))
+        return 1
+    print("not reproduced:", path)
+    return 0
+
+
 def raise_spec(run, what, out):
     from check import Infra
     raise Infra("%s -- the specification itself is inconsistent (machinery problem, not a verdict):\n%s" % (what, run.tail(out)))
@@ -214,6 +254,12 @@ PROPS = {
             "also after reverse axes), PI / namespace / attribute / empty arguments, count() of non-node-sets, P/name(); lang(L) for 9 tags (case variants, prefixes, empty, trailing '-') from every "
             "context kind over documents with xml:lang in {en, EN-us, fr, ''} at every placement; laws: name = local-name iff no namespace, {uri}local otherwise, lang case-insensitive and inherited from the parent",
             "exhaustive": {"quick": True, "thorough": True}, "assumptions": BASE_ASSUME},
+    "C13": {"run": c13, "replay": session_replay, "rule": "TLC enumerates every history of MaxSteps (quick 3, thorough 4) calls of the Xsel system specification: Exec of 10 expressions over held node-sets $v/$w "
+            "(unions with variables on either side, reverse axes, filters, count) and client-side re-slicing (prefixes with spare capacity, suffixes, empty slices); each history is replayed on the "
+            "real library with real Go slices and every call is logged at its return with all held node-sets (element by element) and a digest of the whole cursor tree (kinds, names, values, Pos, list sizes); "
+            "Trace_Xsel judges the result of every call (= Eval, so repeats and re-compilations agree) and the frame condition between consecutive lines; plus seeded random sessions of 20-50 calls on random documents; "
+            "the model with LegacyUnionInPlace must violate Frame (non-vacuity)", "exhaustive": {"quick": True, "thorough": True},
+            "assumptions": BASE_ASSUME + ["a compiled expression is observed through its behaviour (results of later calls), not by inspecting the Grammar value"]},
     "C01": {
         "run": c01,
         "rule": "TLC enumerates every document the Store machine can build within the node bound (all kinds, names a/b x {no namespace,U1}), "
